@@ -51,13 +51,9 @@ Definition data_ok (d : rowdata) : bool := sepfree (r_to d) && sepfree (r_note d
 Definition deleted_saved (m0 m : tbl) (p : bytes) : bool :=
   match get p m0, get p m with Some _, None => true | _, _ => false end.
 
-Definition idx_same (d d0 : rowdata) : bool :=
-  beqb (r_to d) (r_to d0) && beqb (r_note d) (r_note d0).
-
-(** deleting a saved row whose pending update changed an indexed field is unsafe *)
-Definition del_safe (m0 m : tbl) (p : bytes) : bool :=
-  negb (deleted_saved m0 m p) &&
-  match get p m0, get p m with Some d0, Some d => idx_same d d0 | _, _ => true end.
+(** a second Del of a saved row before the next save is unsafe; a Del of a
+    saved row with a pending Update/Replace is safe whatever the update changed *)
+Definition del_safe (m0 m : tbl) (p : bytes) : bool := negb (deleted_saved m0 m p).
 
 Definition op_safe (m0 m : tbl) (o : op) : bool :=
   match o with
